@@ -17,7 +17,7 @@ theorem ginv_congr {w w' : World} {issued live : List Entity} (hn : w'.nodes = w
   have hto : ∀ t, w'.tableOf t = w.tableOf t := by intro t; unfold tableOf; rw [ht]
   obtain ⟨free, hL⟩ := G.link
   refine ⟨kinv_congr hn ht hi G.k, sinv_congr hn ht hc hx G.s, ds.dinv G.d, binv_of_dsame ds G.b, ?_, free, ?_⟩
-  · refine ⟨by rw [ht]; exact G.root.size, ?_, by rw [hto]; exact G.root.active, by rw [hto]; exact G.root.target⟩
+  · refine ⟨by rw [ht]; exact G.root.size, ?_⟩
     have : w'.tableMask 0 = w.tableMask 0 := by unfold tableMask nodeOfTable nodeOf; rw [hto, hn]
     rw [this]; exact G.root.mask
   · exact linv_transfer G.k hp hi hf (fun t r _ => by unfold rowAt; rw [hto]) hL
@@ -55,7 +55,7 @@ theorem ginv_creationTable (w : World) (issued live : List Entity) (G : GInv w i
     simp only [↓reduceIte, Prod.mk.injEq, Except.ok.injEq] at h
     obtain ⟨rfl, rfl⟩ := h
     rw [hroot rfl]
-    exact ⟨G, G.root.size, G.root.active, Misc.refl w, SameRows.refl w, by rw [G.root.mask]; rfl⟩
+    exact ⟨G, G.root.size, (root_active w G.k G.d G.root).1, Misc.refl w, SameRows.refl w, by rw [G.root.mask]; rfl⟩
   | false =>
     simp only [Bool.false_eq_true, ↓reduceIte] at h
     obtain ⟨G1, s1, m1, _⟩ := ginv_findOrCreateTable w issued live G 0 G.root.size ids [] target trivial hreg
@@ -109,5 +109,346 @@ theorem ginv_createEntities (t : Nat) : ∀ (n : Nat) (w : World) (issued live :
     obtain ⟨a, b, c, d⟩ := ih (w.createEntity t).1 _ _ G1 (by rw [hsz]; exact ht) (by rw [(hf t).2.1]; exact hact)
     refine ⟨?_, by simp [b], by rw [c, hsz], d⟩
     simpa [List.reverse_cons, List.append_assoc] using a
+
+
+/-! ## handles -/
+
+/-- a handle the world issued and reports alive is live, and stored where the index says -/
+theorem alive_issued (w : World) (issued live : List Entity) (G : GInv w issued live) (e : Entity) (hi : e ∈ issued)
+    (ha : w.checkAlive e = none) :
+    e ∈ live ∧ loc w e.id = some (w.locOf e) ∧ (rowAt w (w.locOf e).tbl (w.locOf e).row).ent = e := by
+  obtain ⟨free, hL⟩ := G.link
+  obtain ⟨h0, h1, _, h3⟩ := hL.pool.issued_gen e hi
+  have hgen : e.gen = (PoolInv.slot w.pool e.id).gen := by
+    unfold checkAlive Pool.alive? at ha
+    simp only [h1, ↓reduceDIte] at ha
+    unfold PoolInv.slot
+    rw [Array.getD_eq_getD_getElem?, Array.getElem?_eq_getElem h1]
+    by_cases hg : (e.gen == w.pool.ents[e.id].gen) = true
+    · simpa using hg
+    · simp [hg] at ha
+  have hnf : e.id ∉ free := fun hf => by have := h3 hf; omega
+  have hlive : e ∈ live := (hL.pool.live_iff e).2 ⟨h0, h1, hnf, hgen⟩
+  obtain ⟨l, hl, hent⟩ := (hL.stored e).1 hlive
+  have hlo : w.locOf e = l := by unfold locOf; unfold loc at hl; rw [hl]; rfl
+  exact ⟨hlive, by rw [hlo]; exact hl, by rw [hlo]; exact hent⟩
+
+/-- the zero entity is never issued -/
+theorem zero_not_issued (w : World) (issued live : List Entity) (G : GInv w issued live) : Entity.zero ∉ issued := by
+  obtain ⟨free, hL⟩ := G.link
+  intro h
+  have := (hL.pool.issued_gen _ h).1
+  simp [Entity.zero] at this
+
+/-! ## removal -/
+
+theorem misc_cleanFold (target : Entity) (l : List Nat) (w : World) : Misc w (l.foldl (cleanStep target) w) := by
+  induction l generalizing w with
+  | nil => exact Misc.refl w
+  | cons n ns ih =>
+    simp only [List.foldl_cons]
+    refine Misc.trans ?_ (ih _)
+    unfold cleanStep
+    split
+    · split
+      · exact misc_removeTable _ _
+      · exact Misc.refl w
+    · exact Misc.refl w
+
+theorem dsame_cleanFold (target : Entity) (l : List Nat) (w : World) : DSame w (l.foldl (cleanStep target) w) := by
+  induction l generalizing w with
+  | nil => exact DSame.refl w
+  | cons n ns ih =>
+    simp only [List.foldl_cons]
+    refine DSame.trans ?_ (ih _)
+    unfold cleanStep
+    split
+    · split
+      · exact dsame_removeTable _ _
+      · exact DSame.refl w
+    · exact DSame.refl w
+
+/-- what `removeCore` leaves alone: configuration, registry, node masks, sizes -/
+theorem removeCore_frames (w : World) (e : Entity) (l : Loc) : DSame w (removeCore w e l) ∧ Sz w (removeCore w e l) := by
+  unfold removeCore
+  simp only []
+  have d1 := dsame_removeRowFix w l.tbl l.row
+  have z1 := sz_removeRowFix w l.tbl l.row
+  generalize w.removeRowFix l.tbl l.row = w1 at d1 z1
+  have d2 : DSame w1 ({ w1 with pool := w1.pool.recycle e } : World) := DSame.of_nodes rfl rfl rfl
+  have z2 : Sz w1 ({ w1 with pool := w1.pool.recycle e } : World) := ⟨rfl, rfl⟩
+  generalize ({ w1 with pool := w1.pool.recycle e } : World) = w2 at d2 z2
+  have d3 := DSame.of_setIndex w2 e.id none
+  have z3 := Sz.of_setIndex w2 e.id none
+  generalize w2.setIndex e.id none = w3 at d3 z3
+  have d4 : DSame w3 (if w3.flag e.id then (w3.cleanupTables e).setFlag e.id false else w3) := by
+    split
+    · rw [cleanupTables_eq]; exact DSame.trans (dsame_cleanFold e _ w3) (DSame.of_setFlag _ _ _)
+    · exact DSame.refl w3
+  have z4 : Sz w3 (if w3.flag e.id then (w3.cleanupTables e).setFlag e.id false else w3) := by
+    split
+    · rw [cleanupTables_eq]; exact Sz.trans (Sz.of_misc (misc_cleanFold e _ w3)) (Sz.of_setFlag _ _ _)
+    · exact Sz.refl w3
+  generalize (if w3.flag e.id then (w3.cleanupTables e).setFlag e.id false else w3) = w4 at d4 z4
+  exact ⟨DSame.trans (DSame.trans (DSame.trans (DSame.trans d1 d2) d3) d4) (dsame_cleanupTable w4 l.tbl),
+    Sz.trans (Sz.trans (Sz.trans (Sz.trans z1 z2) z3) z4) (Sz.of_misc (misc_cleanupTable w4 l.tbl))⟩
+
+/-- `World.RemoveEntity(e)` for a handle the world issued: never fails on an alive handle of an
+    unlocked world, keeps the invariant, the handle leaves `live` -/
+theorem ginv_removeEntity (w : World) (issued live : List Entity) (G : GInv w issued live) (e : Entity) (hi : e ∈ issued)
+    (hl : w.isLocked = false) (ha : w.checkAlive e = none) :
+    (w.removeEntity e).out = .ok () ∧ GInv (w.removeEntity e).w issued (live.erase e) := by
+  obtain ⟨hlive, hloc, hent⟩ := alive_issued w issued live G e hi ha
+  obtain ⟨hout, lk, hw⟩ := removeEntity_w w e hl ha
+  refine ⟨hout, ?_⟩
+  have G0 : GInv ({ w with locks := lk } : World) issued live := ginv_congr (w := w) rfl rfl rfl rfl rfl rfl rfl rfl rfl G
+  have hS := Arche.Props.C07.remove_sinv w e G.k G.s hl ha hloc hent
+  rw [hw] at hS ⊢
+  generalize hw0 : ({ w with locks := lk } : World) = w0 at *
+  have hloc0 : loc w0 e.id = some (w.locOf e) := by rw [← hw0]; exact hloc
+  have hent0 : (rowAt w0 (w.locOf e).tbl (w.locOf e).row).ent = e := by rw [← hw0]; exact hent
+  generalize w.locOf e = l at *
+  obtain ⟨k', hgone, hoth, hf, hts, hns, hpool, hmeta⟩ := removeCore_spec w0 e l G0.k hloc0 hent0
+  obtain ⟨ds, sz⟩ := removeCore_frames w0 e l
+  have hv : validRow w0 l.tbl l.row := (G0.k.idx.fwd _ _ hloc0).1
+  obtain ⟨free, hL⟩ := G0.link
+  refine ⟨k', hS, ds.dinv G0.d, binv_of_dsame ds G0.b, ⟨by rw [hts]; exact G0.root.size, by rw [(hmeta 0 G0.root.size).2.1]; exact G0.root.mask⟩,
+    e.id :: free, ?_⟩
+  have hP' := PoolInv.recycle_inv w0.pool issued live free hL.pool e hlive
+  have hrsize : (w0.pool.recycle e).ents.size = w0.pool.ents.size := by unfold Pool.recycle; simp
+  refine ⟨by rw [hpool]; exact hP', by rw [sz.index, hpool, hrsize]; exact hL.isize, by rw [sz.flags, sz.index]; exact hL.fsize, ?_⟩
+  intro e'
+  rw [hL.pool.live_nodup.mem_erase_iff]
+  constructor
+  · rintro ⟨hne, hm⟩
+    obtain ⟨l0, h1, h2⟩ := (hL.stored e').1 hm
+    have hidne : e'.id ≠ e.id := by
+      intro heq
+      rw [heq, hloc0] at h1
+      simp only [Option.some.injEq] at h1
+      rw [← h1, hent0] at h2
+      exact hne h2.symm
+    obtain ⟨l', a, _, c⟩ := hoth e'.id hidne l0 h1
+    exact ⟨l', a, by rw [c]; exact h2⟩
+  · rintro ⟨l', h1, h2⟩
+    have hidne : e'.id ≠ e.id := by intro heq; rw [heq, hgone] at h1; cases h1
+    -- it was stored before
+    have hbefore : ∃ l0, loc w0 e'.id = some l0 := by
+      rw [(removeCore_loc w0 e l G0.k hloc0 hent0 e'.id).1, loc_dropRow w0 G0.k.idx _ _ hv] at h1
+      rw [hent0] at h1
+      rw [if_neg hidne] at h1
+      split at h1
+      · rename_i hc
+        exact ⟨⟨l.tbl, (w0.tableOf l.tbl).rows.size - 1⟩, by rw [hc.2]; exact G0.k.idx.bwd _ _ ⟨hv.1, by have := hv.2; omega⟩⟩
+      · exact ⟨l', h1⟩
+    obtain ⟨l0, hl0⟩ := hbefore
+    obtain ⟨l'', a, _, c⟩ := hoth e'.id hidne l0 hl0
+    rw [a] at h1
+    simp only [Option.some.injEq] at h1
+    rw [← h1, c] at h2
+    have hm : e' ∈ live := (hL.stored e').2 ⟨l0, hl0, h2⟩
+    exact ⟨fun heq => hidne (by rw [heq]), hm⟩
+
+
+/-! ## the exchange family -/
+
+open Arche.Props.C08 in
+theorem stored_iff_view (w : World) (e : Entity) :
+    (∃ l, loc w e.id = some l ∧ (rowAt w l.tbl l.row).ent = e) ↔ ∃ v, view w e.id = some v ∧ v.ent = e := by
+  constructor
+  · rintro ⟨l, h1, h2⟩
+    exact ⟨_, view_of_at w e.id l.tbl _ ⟨l, h1, rfl, rfl⟩, h2⟩
+  · rintro ⟨v, h1, h2⟩
+    obtain ⟨t, row, ⟨l, a, b, c⟩, hv⟩ := at_of_view w e.id v h1
+    refine ⟨l, a, ?_⟩
+    rw [c, ← h2, hv]; rfl
+
+/-- the link invariant only depends on pool, sizes and the handles the views report -/
+theorem linv_of_views {w w' : World} {issued live : List Entity} {free : List Nat}
+    (hp : w'.pool = w.pool) (sz : Sz w w')
+    (hv : ∀ e, (∃ v, Arche.Props.C08.view w' e.id = some v ∧ v.ent = e) ↔ (∃ v, Arche.Props.C08.view w e.id = some v ∧ v.ent = e))
+    (h : LInv w issued live free) : LInv w' issued live free := by
+  refine ⟨by rw [hp]; exact h.pool, by rw [sz.index, hp]; exact h.isize, by rw [sz.flags, sz.index]; exact h.fsize, ?_⟩
+  intro e
+  rw [h.stored e, stored_iff_view, stored_iff_view, hv e]
+
+theorem exchange_frames (w : World) (e : Entity) (add rem : List CompId) (rel : Option CompId) (target : Entity) (x : Exchanged)
+    (hI : NodeInv w) (hs : (w.locOf e).tbl < w.tables.size) (hadd : ∀ id ∈ add, id < w.reg.count) (b : BInv w)
+    (hok : (w.exchangeNoNotify e add rem rel target).out = .ok (some x)) :
+    BInv (w.exchangeNoNotify e add rem rel target).w ∧ Sz w (w.exchangeNoNotify e add rem rel target).w := by
+  obtain ⟨tgt, mask, _, _, _, _, hw⟩ := Arche.Props.C01.exchange_world w e add rem rel target x hok
+  rw [hw]
+  have b1 := binv_findOrCreateTable w b hI (w.locOf e).tbl hs add rem tgt hadd
+  have m1 := misc_findOrCreateTable w (w.locOf e).tbl add rem tgt
+  generalize (w.findOrCreateTable (w.locOf e).tbl add rem tgt).1 = w1 at b1 m1
+  have ds := DSame.trans (DSame.trans (dsame_moveEntity w1 e (w.locOf e) x.tbl) (DSame.of_markTarget _ tgt)) (dsame_cleanupTable _ (w.locOf e).tbl)
+  have sz := Sz.trans (Sz.trans (sz_moveEntity w1 e (w.locOf e) x.tbl) (Sz.of_markTarget _ tgt)) (Sz.of_misc (misc_cleanupTable _ (w.locOf e).tbl))
+  exact ⟨binv_of_dsame ds b1, Sz.trans (Sz.of_misc m1) sz⟩
+
+/-- `World.Add` / `Remove` / `Exchange` / `Relations.Exchange` (`exchangeNoNotify` with something
+    to do) on a handle the world issued: the invariant is kept, the same handles stay live -/
+theorem ginv_exchange (w : World) (issued live : List Entity) (G : GInv w issued live) (e : Entity) (hi : e ∈ issued)
+    (add rem : List CompId) (rel : Option CompId) (target : Entity) (hadd : ∀ id ∈ add, id < w.reg.count) (x : Exchanged)
+    (hok : (w.exchangeNoNotify e add rem rel target).out = .ok (some x)) :
+    GInv (w.exchangeNoNotify e add rem rel target).w issued live := by
+  have ha : w.checkAlive e = none := by
+    unfold exchangeNoNotify at hok
+    by_cases hl : w.isLocked = true
+    · simp [hl, World.fail] at hok
+    simp only [hl, Bool.false_eq_true, ↓reduceIte] at hok
+    cases hc : w.checkAlive e with
+    | none => rfl
+    | some p => simp [hc, World.fail] at hok
+  obtain ⟨_, hloc, hent⟩ := alive_issued w issued live G e hi ha
+  have hv : Arche.Props.C08.view w e.id = some (Arche.Props.C08.mkView w (w.locOf e).tbl (rowAt w (w.locOf e).tbl (w.locOf e).row)) :=
+    Arche.Props.C08.view_of_at w e.id _ _ ⟨w.locOf e, hloc, rfl, rfl⟩
+  obtain ⟨k1, s1, d1, _, _, p1, ⟨v', hv', hxf⟩, hoth⟩ :=
+    Arche.Props.C08.single_views w G.k G.s G.d e add rem rel target x _ hv hent hok
+  have hvr := (G.k.idx.fwd _ _ hloc).1
+  obtain ⟨b1, sz1⟩ := exchange_frames w e add rem rel target x G.k.node hvr.1 hadd G.b hok
+  obtain ⟨_, _, hat, _, hold⟩ := Arche.Props.C01.exchange_spec w e add rem rel target x (Arche.Props.C05.KInv.winv G.k) hloc hent hok
+  obtain ⟨free, hL⟩ := G.link
+  refine ⟨k1, s1, d1, b1, ⟨?_, by rw [(hold 0 G.root.size).2]; exact G.root.mask⟩, free, ?_⟩
+  · obtain ⟨l', h1, h2, _⟩ := hat
+    have := (k1.idx.fwd _ _ h1).1.1
+    omega
+  · apply linv_of_views p1 sz1 _ hL
+    intro e'
+    by_cases hid : e'.id = e.id
+    · rw [hid, hv, hv']
+      constructor
+      · rintro ⟨v, a, b⟩
+        simp only [Option.some.injEq] at a
+        refine ⟨_, rfl, ?_⟩
+        rw [← b, ← a, hxf.1]
+      · rintro ⟨v, a, b⟩
+        simp only [Option.some.injEq] at a
+        refine ⟨_, rfl, ?_⟩
+        rw [← b, ← a, hxf.1]
+    · rw [hoth e'.id hid]
+
+
+/-! ## batch exchange -/
+
+open Arche.Props.C08 in
+/-- `Batch.Add` / `Remove` / `Exchange` / `Relations.ExchangeBatch` (and, before their lock is
+    taken, the Q variants): the invariant is kept, the same handles stay live -/
+theorem ginv_exchangeBatch (w : World) (issued live : List Entity) (G : GInv w issued live)
+    (f : Filter) (add rem : List CompId) (rel : Option CompId) (target : Entity) (hadd : ∀ id ∈ add, id < w.reg.count)
+    (n : Nat) (bs : Array BatchEntry) (hne : ¬ (add = [] ∧ rem = []))
+    (hok : (w.exchangeBatchNoNotify f add rem rel target).out = .ok (n, bs))
+    (hlegal : ∀ t, Cache.Sel w (plain w f) t → (w.tableOf t).rows.size ≠ 0 → Legal (w.tableMask t) add rem) :
+    GInv (w.exchangeBatchNoNotify f add rem rel target).w issued live := by
+  obtain ⟨ts, hg, hnodup, hmem, _, hP⟩ := exchangeBatch_spec w G.k G.s f add rem rel target n bs hne hok hlegal
+  have hL : LensOK w add rem (lensOf w ts) := by
+    refine ⟨?_, ?_⟩
+    · unfold lensOf; rw [List.map_map]
+      have : ((fun x : Nat × Nat => x.1) ∘ fun t => (t, (w.tableOf t).rows.size)) = id := by funext t; rfl
+      rw [this, List.map_id]; exact hnodup
+    · intro p hp hnz
+      unfold lensOf at hp
+      rw [List.mem_map] at hp
+      obtain ⟨t, ht, rfl⟩ := hp
+      have hsl := (hmem t).1 ht
+      exact ⟨hsl.1, rfl, hlegal t hsl hnz⟩
+  obtain ⟨hbsel, hboth⟩ := loop_views w _ add rem rel target (lensOf w ts) bs.toList G.k G.d hL hP
+  obtain ⟨free, hLk⟩ := G.link
+  refine ⟨hP.kinv, hP.sinv, (hP.dinv G.d).1, hP.binv hadd G.b,
+    ⟨Nat.lt_of_lt_of_le G.root.size hP.tsize, by rw [(hP.old 0 G.root.size).2.1]; exact G.root.mask⟩, free, ?_⟩
+  apply linv_of_views hP.pool hP.sz _ hLk
+  intro e'
+  by_cases hsl : BatchLoop.Sel w (lensOf w ts) e'.id
+  · obtain ⟨v, v', a1, a2, a3⟩ := hbsel e'.id hsl
+    rw [a1, a2]
+    constructor
+    · rintro ⟨u, a, b⟩
+      simp only [Option.some.injEq] at a
+      exact ⟨_, rfl, by rw [← b, ← a, a3.1]⟩
+    · rintro ⟨u, a, b⟩
+      simp only [Option.some.injEq] at a
+      exact ⟨_, rfl, by rw [← b, ← a, a3.1]⟩
+  · rw [hboth e'.id hsl]
+
+/-! ## filter registration -/
+
+theorem ginv_cacheRegister (w : World) (issued live : List Entity) (G : GInv w issued live) (f : Filter) (hf : ∀ g id, f ≠ .cached g id) :
+    GInv (w.cacheRegister f).w issued live := by
+  obtain ⟨_, _, s, k⟩ := Arche.Props.C07.register_spec w G.k G.s f hf
+  have hreg : (w.cacheRegister f).w = { w with cache := w.cache.push ⟨w.cacheNext, f, (w.matchingTables f).toArray, none⟩, cacheNext := w.cacheNext + 1 } := by
+    unfold cacheRegister
+    cases f <;> first | rfl | exact absurd rfl (hf _ _)
+  have hds : DSame w (w.cacheRegister f).w := by rw [hreg]; exact DSame.of_nodes rfl rfl rfl
+  obtain ⟨free, hL⟩ := G.link
+  refine ⟨k, s, hds.dinv G.d, binv_of_dsame hds G.b, ?_, free, ?_⟩
+  · rw [hreg]; exact ⟨G.root.size, G.root.mask⟩
+  · rw [hreg]; exact linv_transfer (w := w) G.k rfl rfl rfl (fun _ _ _ => rfl) hL
+
+theorem ginv_cacheUnregister (w : World) (issued live : List Entity) (G : GInv w issued live) (id : Nat) (e : CacheEntry)
+    (h : w.cacheFind id = some e) : GInv (w.cacheUnregister id).w issued live := by
+  obtain ⟨_, _, s, k⟩ := Arche.Props.C07.unregister_spec w G.k G.s id e h
+  have hw : ∃ c, (w.cacheUnregister id).w = { w with cache := c } := by
+    unfold cacheUnregister
+    split
+    · exact ⟨w.cache, rfl⟩
+    · exact ⟨_, rfl⟩
+  obtain ⟨c, hc⟩ := hw
+  have hds : DSame w (w.cacheUnregister id).w := by rw [hc]; exact DSame.of_nodes rfl rfl rfl
+  obtain ⟨free, hL⟩ := G.link
+  refine ⟨k, s, hds.dinv G.d, binv_of_dsame hds G.b, ?_, free, ?_⟩
+  · rw [hc]; exact ⟨G.root.size, G.root.mask⟩
+  · rw [hc]; exact linv_transfer (w := w) G.k rfl rfl rfl (fun _ _ _ => rfl) hL
+
+/-! ## component registration, resources, listener -/
+
+/-- registering a component type (also a relation type) keeps the invariant: no existing node
+    mask holds the new id -/
+theorem ginv_registerComponent (w : World) (issued live : List Entity) (G : GInv w issued live) (isRel zs : Bool) (id : Nat)
+    (hok : (w.registerComponent isRel zs).out = .ok id) :
+    GInv (w.registerComponent isRel zs).w issued live ∧ id = w.reg.count ∧ (w.registerComponent isRel zs).w.reg.count = w.reg.count + 1 := by
+  unfold registerComponent at hok ⊢
+  split at hok
+  · simp [World.fail] at hok
+  rename_i h1
+  split at hok
+  · simp [World.fail] at hok
+  rename_i h2
+  simp only [h1, h2, ↓reduceIte, Bool.false_eq_true] at hok ⊢
+  simp only [Except.ok.injEq] at hok
+  refine ⟨?_, hok.symm, trivial⟩
+  generalize hrg : ({ count := w.reg.count + 1, isRel := Mask.set w.reg.isRel w.reg.count isRel, zeroSized := Mask.set w.reg.zeroSized w.reg.count zs } : Registry) = rg
+  have hrg1 : rg.count = w.reg.count + 1 := by rw [← hrg]
+  have hrg2 : rg.isRel = Mask.set w.reg.isRel w.reg.count isRel := by rw [← hrg]
+  generalize hw' : ({ w with reg := rg } : World) = w'
+  have hn : w'.nodes = w.nodes := by rw [← hw']
+  have hnode : ∀ n, w'.nodeOf n = w.nodeOf n := by intro n; unfold nodeOf; rw [hn]
+  obtain ⟨free, hL⟩ := G.link
+  refine ⟨by rw [← hw']; exact kinv_congr (w := w) rfl rfl rfl G.k, by rw [← hw']; exact sinv_congr (w := w) rfl rfl rfl rfl G.s, ?_, ?_, ?_, free, ?_⟩
+  · refine ⟨fun n hn' => ?_, fun n hn' c => ?_⟩
+    · rw [hnode]; have : w'.cfg = w.cfg := by rw [← hw']
+      rw [this]; exact G.d.ids n (by rw [← hn]; exact hn')
+    · rw [hnode]
+      have hlt : n < w.nodes.size := by rw [← hn]; exact hn'
+      have hr : w'.reg.isRel = Mask.set w.reg.isRel w.reg.count isRel := by rw [← hw']; exact hrg2
+      rw [hr, NatMask.get_set]
+      by_cases hc : c = w.reg.count
+      · subst hc
+        simp only [↓reduceIte]
+        have hnot : Mask.get (w.nodeOf n).mask w.reg.count = false := by
+          cases hg : Mask.get (w.nodeOf n).mask w.reg.count
+          · rfl
+          · exact absurd (G.b n hlt _ hg) (Nat.lt_irrefl _)
+        constructor
+        · intro hrel
+          have := ((G.d.rel n hlt w.reg.count).1 hrel).1
+          rw [hnot] at this; cases this
+        · rintro ⟨a, _⟩; rw [hnot] at a; cases a
+      · simp only [hc, ↓reduceIte]; exact G.d.rel n hlt c
+  · intro n hn' c hc
+    rw [hnode] at hc
+    have : w'.reg.count = w.reg.count + 1 := by rw [← hw']; exact hrg1
+    rw [this]
+    exact Nat.lt_succ_of_lt (G.b n (by rw [← hn]; exact hn') c hc)
+  · rw [← hw']; exact ⟨G.root.size, G.root.mask⟩
+  · rw [← hw']; exact linv_transfer (w := w) G.k rfl rfl rfl (fun _ _ _ => rfl) hL
 
 end Arche.GOps
